@@ -131,7 +131,7 @@ def u_fork(c):
             c.prove("fork2/immediate-no-children", f1.fields["children"] == [])
 
 
-@unit("build", ["C03", "C07", "C02"], [I + ":BaseAccumulator.build", I + ":BaseAccumulator.getcap"], mode="bounded", bound="parent chain depth <= 3")
+@unit("build", ["C03", "C07", "C02", "C12"], [I + ":BaseAccumulator.build", I + ":BaseAccumulator.getcap"], mode="bounded", bound="parent chain depth <= 3")
 def u_build(c):
     """build() = union of the capture dictionaries along the parent chain; the nearest level wins on a clash;
     nothing is modified; for a parent-less accumulator it is its own dictionary."""
@@ -174,6 +174,16 @@ def u_build(c):
         c.prove("ensures/root-returns-own-dict", res is leaf.fields["captures"])
     else:
         c.prove("ensures/fresh-dict-when-chained", all(res is not a.fields["captures"] for a in chain))
+    # build() is a function of the CURRENT state of the chain: a variable of an outer activation that is captured only after
+    # an inner accumulator already produced an event (generator frames, sibling calls made from inside the focus function)
+    # must appear in -- and be checked for -- the next event
+    if depth >= 1:
+        owner = chain[c.choose(depth + 1, "late-owner")]
+        late = mk_obj(it, I, "Capture", element=None, capture="late", names=[], values=[])
+        owner.fields["captures"]["late"] = late
+        st, res2 = run(it, it.getattr(leaf, "build"), [])
+        c.prove("second-build/sees-captures-added-since-the-first", st == "ok" and isinstance(res2, dict) and res2.get("late") is late
+                and set(res2.keys()) == keys | {"late"})
 
 
 @unit("log", ["C02", "C07"], [I + ":Immediate.log", I + ":Total.log", I + ":BaseAccumulator.getcap", I + ":Capture.set", I + ":Capture.accum"])
